@@ -36,27 +36,80 @@ def _mk(rule):
     return fn
 
 
+def _counter_form(ctx, prog, h, r):
+    """accepted alternative form: `self.count_matched < self.lines.len()` (or `!=`), provided Diff::new counts exactly one
+    per MatchedExpectation record over all records (then count_matched == lines.len() iff every record is Matched)"""
+    from .c14 import _counter_incs, _counter_writes
+    from ..cfgq import explore
+    if not (r.kind == "bin" and r.a in ("Lt", "Ne")):
+        return False
+    a, b = peel(r.kids[0]), peel(r.kids[1])
+    ok_shape = a.kind == "field" and a.a == "count_matched" and b.kind == "call" and method_name(b.a).endswith("len") and any(n.kind == "field" and n.a == "lines" for n in b.walk())
+    if not ok_shape:
+        return False
+    new = prog.fn("Diff::new")
+    bodies = [new] + prog.closures_of(new)
+    incs = []
+    for body in bodies:
+        for bb, si, nm in _counter_incs(body):
+            if nm == "count_matched":
+                incs.append((body, bb))
+        for bb, si, nm in _counter_writes(body, prefix="count_matched"):
+            if (body, bb) not in incs and body.blocks[bb]["stmts"][si]["rv"]["k"] != "use" or False:
+                pass
+    writes = [(body, bb) for body in bodies for bb, si, nm in _counter_writes(body, prefix="count_matched")
+              if not (body is new and body.blocks[bb]["stmts"][si]["rv"]["k"] == "use" and "const" in body.blocks[bb]["stmts"][si]["rv"]["op"])]
+    good = len(incs) == 1 and len(writes) == 1
+    if good:
+        body, bb = incs[0]
+        sw = None
+        for sb, st in switches(body):
+            ve, rv = variant_edges(body, sb)
+            if ve is not None and "MatchedExpectation" in ve:
+                sw = (sb, ve, rv)
+        good = sw is not None
+        if good:
+            sb, ve, rv = sw
+            pk = place_key(rv["place"])
+            mine = set(explore(body, ve["MatchedExpectation"], {pk: "MatchedExpectation"}).keys())
+            others = set()
+            for v, tg in ve.items():
+                if v != "MatchedExpectation":
+                    others |= set(explore(body, tg, {pk: v}).keys())
+            good = bb in mine - others
+    ctx.check(good, "counter-form", new.where(),
+              "has_differences compares count_matched with lines.len(), and Diff::new counts exactly 1 per MatchedExpectation record",
+              "has_differences is `count_matched < lines.len()` but Diff::new does not count exactly one per MatchedExpectation record (increments: %d, other writes: %d): "
+              "a multiline match of k lines cancels k-1 failure records and the test passes" % (len(incs), len(writes) - len(incs)))
+    o = Origins(new)
+    fe = [t for _, t in new.calls() if mname(t) in ("Iterator::for_each", "Iterator::next")]
+    srcs = [o.operand(t["args"][0]) for t in fe]
+    filt = [m for sd in srcs for m in (method_name(c) for c in sd.call_names()) if m in ("Iterator::skip", "Iterator::take", "Iterator::filter", "Iterator::step_by")]
+    ctx.check(fe and not filt, "counter-form-all-records", new.where(), "Diff::new visits every record")
+    return True
+
+
 def r1_6(ctx):
     prog = ctx.prog
     h = prog.fn("Diff::has_differences")
     o = Origins(h)
     r = o.local(0)
-    ok = r.kind == "call" and method_name(r.a) == "Iterator::any" and any(n.kind == "field" and n.a == "lines" for n in r.kids[0].walk()) \
-        and not [m for m in (method_name(c) for c in r.kids[0].call_names()) if m in ("Iterator::skip", "Iterator::take", "Iterator::filter")]
-    ctx.check(ok, "any-over-all-lines", h.where(), "has_differences == lines.iter().any(..) over all records", "has_differences is %s" % r.show()[:120])
-    cl = peel(r.kids[1]) if r.kind == "call" and len(r.kids) > 1 else None
-    cb = prog.body_by_def(cl.a[0][len("closure "):], h.crate) if cl is not None and cl.kind == "agg" and cl.a[0].startswith("closure ") else None
-    if cb is None:
-        ctx.bad("predicate", h.where(), "cannot find the predicate closure of has_differences")
+    if _counter_form(ctx, prog, h, r):
+        for k in range(4):
+            ctx.ok("counter-form-note#%d" % k, h.where(), "counter form of has_differences accepted (see counter-form)", obligation=False)
+        cb = None
     else:
+        ok = r.kind == "call" and method_name(r.a) == "Iterator::any" and any(n.kind == "field" and n.a == "lines" for n in r.kids[0].walk()) \
+            and not [m for m in (method_name(c) for c in r.kids[0].call_names()) if m in ("Iterator::skip", "Iterator::take", "Iterator::filter")]
+        ctx.check(ok, "any-over-all-lines", h.where(), "has_differences == lines.iter().any(..) over all records", "has_differences is %s" % r.show()[:120])
+        cl = peel(r.kids[1]) if r.kind == "call" and len(r.kids) > 1 else None
+        cb = prog.body_by_def(cl.a[0][len("closure "):], h.crate) if cl is not None and cl.kind == "agg" and cl.a[0].startswith("closure ") else None
+        if cb is None:
+            ctx.bad("predicate", h.where(), "cannot find the predicate closure of has_differences")
+    if cb is not None:
         adt = prog.adt("DiffLine", crate="scrut-lib")
         names = [v["name"] for v in adt["variants"]]
-        # evaluate the predicate per variant: decide the discriminant switch
         for idx, v in enumerate(names):
-            def dm(pl, idx=idx):
-                return idx
-            rs = [x for x in cases(cb, lambda pl: None, None) if x["end"] == "return"]
-            # cases() cannot decide discriminant switches itself: walk variant edges instead
             val = _pred_value(cb, v)
             want = v != "MatchedExpectation"
             ctx.check(val == want, "predicate:" + v, cb.where(), "a %s record %s a difference" % (v, "is" if want else "is not"),
